@@ -220,6 +220,35 @@ def install(world):
         return V(STR, f(z3.StringVal(' '), eng.coerce(args[0], TSeq(STR), node).term))
     world.add_prim('join_sp', p_join_sp, VT.join_sp)
 
+    def p_has_non_ws(eng, args, st, node):
+        import re as _re
+        from . import regexc
+        pid, info = world.rx.pid(_re.compile('[^ \t\r\n\f]'))
+        sv = eng.coerce(args[0], STR, node)
+        return V(BOOL, z3.InRe(sv.term, z3.Concat(z3.Star(regexc.allchar()), info.match_lang())))
+    world.add_prim('has_non_ws', p_has_non_ws, VT.has_non_ws)
+
+    def p_strip_nonempty(eng, args, st, node):
+        f = world.ufunc('str.strip.str', STR.sort(), STR.sort())
+        return V(BOOL, z3.Length(f(eng.coerce(args[0], STR, node).term)) > 0)
+    world.add_prim('strip_nonempty', p_strip_nonempty, VT.strip_nonempty)
+
+    def p_wild_strip(eng, args, st, node):
+        import re as _re
+        pid, info = world.rx.pid(_re.compile(r'(?:-\*)+(?=-|\Z)'))
+        return V(STR, world.rx.subf(z3.IntVal(pid), z3.StringVal(''), eng.coerce(args[0], STR, node).term))
+    world.add_prim('wild_strip', p_wild_strip, VT.wild_strip)
+
+    def p_py_lower(eng, args, st, node):
+        f = world.ufunc('str.lower.str', STR.sort(), STR.sort())
+        return V(STR, f(eng.coerce(args[0], STR, node).term))
+    world.add_prim('py_lower', p_py_lower, VT.py_lower)
+
+    def p_split_dash(eng, args, st, node):
+        f = world.ufunc('str.split.str', STR.sort(), STR.sort(), TSeq(STR).sort())
+        return V(TSeq(STR), f(eng.coerce(args[0], STR, node).term, z3.StringVal('-')))
+    world.add_prim('split_dash', p_split_dash, VT.split_dash)
+
     def p_same(eng, args, st, node):
         return V(BOOL, eng.eq(args[0], args[1], node))
     world.add_prim('same', p_same, VT.same)
@@ -365,23 +394,11 @@ def install(world):
     # ---- axioms
     def axioms(world_, formulas):
         node_terms = {}
-        nth_terms = []
-        stack = list(formulas)
-        seen = set()
-        while stack:
-            t = stack.pop()
-            i = t.get_id()
-            if i in seen:
-                continue
-            seen.add(i)
-            if z3.is_app(t):
-                if t.sort().eq(NS):
-                    node_terms[i] = t
-                if t.decl().kind() == z3.Z3_OP_SEQ_NTH and t.arg(0).sort().eq(SEQ_NODE.sort()):
-                    nth_terms.append(t)
-                stack.extend(t.children())
-            elif z3.is_quantifier(t):
-                stack.append(t.body())
+        nth_terms = {}
+        for f in formulas:
+            _, nodes, nths = world_.scan(f)
+            node_terms.update(nodes)
+            nth_terms.update(nths)
         ax = []
         # one extra round: parents of the terms found
         extra = {}
@@ -389,9 +406,14 @@ def install(world):
             p = parent(t)
             extra[p.get_id()] = p
         node_terms.update(extra)
+        ncache = world_.__dict__.setdefault('_node_axiom_cache', {})
         for t in node_terms.values():
-            ax.extend(node_axioms(t))
-        for nt in nth_terms:
+            hit = ncache.get(t.get_id())
+            if hit is None:
+                hit = (t, node_axioms(t))
+                ncache[t.get_id()] = hit
+            ax.extend(hit[1])
+        for nt in nth_terms.values():
             seq, i = nt.arg(0), nt.arg(1)
             if z3.is_app(seq) and seq.decl().eq(contents):
                 p = seq.arg(0)
